@@ -21,6 +21,11 @@ from harness.memstore import MemBackend, AsyncMemBackend
 KDF = {'name': 'scrypt', 'n': 4, 'r': 1, 'p': 1}
 
 
+def repo_hist_columns():
+    from replicat.utils import FileListColumn
+    return FileListColumn
+
+
 class Killed(Exception):
     """Simulated death of the process: raised by every backend call from the crash point on."""
 
@@ -353,6 +358,75 @@ def run_history(seed, scratch: Path, rep: Report, *, nops, weights, checks, conc
             viol('exception', f'{what} raised {type(e).__name__}: {str(e)[:150]}', traceback.format_exc()[-1200:])
             raise Abort()
 
+    async def observe_access(user):
+        """what does this user see?  list-snapshots rows, list-files rows, restore of others' snapshots"""
+        present = {n: s_ for n, s_ in world.snaps.items() if s_['location'] in world.backend.objects}
+        r = await world.unlocked(user)
+        buf = io.StringIO()
+        with contextlib.redirect_stdout(buf):
+            await r.list_snapshots(header=False)
+        rows = [ln.split('\t') for ln in buf.getvalue().splitlines() if ln.strip()]
+        seen = {row[0].strip(): row for row in rows}
+        want_visible = {n for n, s_ in present.items() if s_['fam'] == user['fam']}
+        if set(seen) != want_visible:
+            viol('visibility', f'list-snapshots shows {len(seen)} snapshot(s), the caller\'s key family has {len(want_visible)}',
+                 {'caller': user['name'], 'extra': sorted(set(seen) - want_visible)[:3], 'missing': sorted(want_visible - set(seen))[:3]})
+        for n, row in seen.items():
+            if n not in present:
+                continue
+            readable = row[2].strip() != '--'
+            own = present[n]['uid'] == user['uid']
+            if readable != own:
+                viol('details', 'snapshot details (note, time, files) are %s to a user who %s its key' %
+                     ('shown' if readable else 'hidden', 'does not hold' if not own else 'holds'), {'caller': user['name'], 'owner': present[n]['owner']})
+        buf = io.StringIO()
+        with contextlib.redirect_stdout(buf):
+            await r.list_files(header=False, columns=[repo_hist_columns().SNAPSHOT_NAME, repo_hist_columns().PATH])
+        listed = {ln.split('\t')[0].strip() for ln in buf.getvalue().splitlines() if ln.strip()}
+        foreign = {n for n in listed if n in present and present[n]['uid'] != user['uid']}
+        if foreign:
+            viol('file_list_foreign', 'list-files shows files of a snapshot made under another key', {'caller': user['name']})
+        others_ = [n for n, s_ in present.items() if s_['uid'] != user['uid']]
+        if others_:
+            victim = rng.choice(others_)
+            out = world.scratch / f'steal-{world.nfiles}'
+            world.nfiles += 1
+            out.mkdir()
+            try:
+                res = await r.restore(snapshot_regex='^' + victim + '$', path=out)
+                got = [p for p in out.rglob('*') if p.is_file()]
+                if res.files or got:
+                    viol('restore_foreign', "restore wrote files of another user's snapshot", {'caller': user['name'], 'owner': present[victim]['owner']})
+            finally:
+                shutil.rmtree(out, ignore_errors=True)
+
+    async def unlock_matrix():
+        for ku in world.users:
+            for pu in world.users:
+                if ku['key'] is None:
+                    continue
+                r = world.repo()
+                should = ku['password'] == pu['password']
+                try:
+                    await r.unlock(password=pu['password'], key=ku['key'])
+                    ok = True
+                except Exception as e:
+                    ok = False
+                    if type(e).__name__ not in ('DecryptionError', 'ReplicatError'):
+                        viol('unlock_crash', f'unlock with a wrong password raised {type(e).__name__}')
+                if ok != should:
+                    viol('unlock', 'a key was %s by %s password' % ('unlocked' if ok else 'not unlocked', 'another' if not should else 'its own'),
+                         {'key_of': ku['name'], 'password_of': pu['name']})
+        # a key of the right user but mangled password
+        u = rng.choice([u for u in world.users if u['key'] is not None] or [None])
+        if u is not None:
+            for bad in (u['password'] + b'x', u['password'][:-1], b''):
+                try:
+                    await world.repo().unlock(password=bad, key=u['key'])
+                    viol('unlock', 'a key was unlocked by a wrong password', {'key_of': u['name']})
+                except Exception:
+                    pass
+
     async def go():
         nonlocal ops_model, observed
         try:
@@ -437,6 +511,10 @@ def run_history(seed, scratch: Path, rep: Report, *, nops, weights, checks, conc
                 if world.backend.objects != before_objects and 'access' in checks:
                     viol('refused_delete_mutated', 'a refused delete changed the repository')
                 ops_model.append(('del', user['uid'], user['fam'], [world.snaps[n]['sid'] for n in mixed]))
+            elif kind == 'observe':
+                await observe_access(user)
+                descr.append(['observe', user['name']])
+                continue
             elif kind == 'clean':
                 await cmd(world.clean(user), 'clean')
                 descr.append(['clean', user['name']])
@@ -471,6 +549,15 @@ def run_history(seed, scratch: Path, rep: Report, *, nops, weights, checks, conc
             if world.backend.objects.get('config') != config0 or world.backend.objects.get('other/keep') != b'foreign':
                 viol('config_touched', 'config or an object outside the chunk/snapshot areas was modified or removed')
             ref = world.referenced()
+            if 'dedup' in checks and not world.orphans:
+                if ch != ref:
+                    viol('not_exact', f'chunk objects differ from the chunks referenced by the remaining snapshots: '
+                                      f'{len(ch - ref)} unreferenced, {len(ref - ch)} missing (crash-free history)')
+                locs = {}
+                for n_, s_ in world.snaps.items():
+                    for d_, loc_ in s_['chunk_locations'].items():
+                        if locs.setdefault(loc_, (s_['fam'], d_)) != (s_['fam'], d_):
+                            viol('family_alias', 'two different (family, chunk) pairs share one storage name')
             if 'restore' in checks:
                 missing = ref - ch
                 if missing:
@@ -480,6 +567,12 @@ def run_history(seed, scratch: Path, rep: Report, *, nops, weights, checks, conc
                 extra = {c for c in ch if c[0] == fam} - ref
                 if kind == 'clean' and extra:
                     viol('gc_incomplete', f'clean left {len(extra)} unreferenced chunk(s) of the caller\'s family')
+                if kind == 'delete':
+                    expected_gone = {(fam, world.did(d)) for n in names for d in world.snaps[n]['table']} - ref
+                    if expected_gone & ch:
+                        viol('gc_incomplete', f'delete left {len(expected_gone & ch)} chunk(s) that only the deleted snapshots referenced')
+                    if any(world.snaps[n]['location'] in world.backend.objects for n in names):
+                        viol('gc_incomplete', 'delete left a named snapshot object in place')
             if 'frame' in checks and kind in ('clean', 'delete'):
                 fam = user['fam']
                 lost = {c for c in world.lift(before_objects)[0] if c[0] != fam} - ch
@@ -489,6 +582,8 @@ def run_history(seed, scratch: Path, rep: Report, *, nops, weights, checks, conc
                 if lost_s:
                     viol('gc_overreach', f'{kind} by family {fam} removed a snapshot of another family')
         # ---- final oracles
+        if 'access' in checks and world.encrypted:
+            await unlock_matrix()
         if 'restore' in checks:
             for n, s in world.snaps.items():
                 if s['location'] in world.backend.objects:
